@@ -269,7 +269,7 @@ class PointInCurved:
     def signature(self, name, xs, outcome, exc):
         self.build()
         if exc is not None:
-            return {"name": "curved membership", "exc": exc["exc"], "boundary_has_a_cubic_piece": any(len(s) == 4 for s in self._segs)}
+            return {"name": "curved membership", "exc": exc["exc"], "boundary_has_a_curved_piece": any(len(s) >= 3 for s in self._segs)}
         p = (xs[0], xs[1])
         ccw = R.x_signed_area2(self._chords) > 0
         chord = R.x_in(("poly", self._chords, ccw), p)
